@@ -137,7 +137,6 @@ impl Ctx {
         }
         s.push_str("\n ]\n}\n");
         std::fs::write(self.out.join("stats.json"), s).unwrap();
-        let _ = std::fs::remove_dir_all(&self.work);
     }
 }
 
